@@ -127,7 +127,17 @@ func driveC20Main(t *testing.T, out *vEmitter) {
 	}
 	time.Sleep(time.Duration(vPick(3, 40)) * time.Second)
 	close(stop)
-	wg.Wait()
+	finished := make(chan struct{})
+	go func() { wg.Wait(); close(finished) }()
+	select {
+	case <-finished:
+	case <-time.After(20 * time.Second):
+		// a deadlock cannot be waited out: report it and end the driver
+		out.Violation("reload/deadlock", "allow-list validations and reloads stopped completing: the goroutines are blocked on the map's lock",
+			map[string]interface{}{"validations_completed": atomic.LoadInt64(&checks)})
+		out.Close()
+		os.Exit(0)
+	}
 	mu.Lock()
 	final := effective(seq)
 	mu.Unlock()
